@@ -89,7 +89,10 @@ func (s *syn) primary(d int) string {
 		switch r.Intn(5) {
 		case 0:
 			if x[len(x)-1] >= '0' && x[len(x)-1] <= '9' || x[len(x)-1] == '.' {
-				continue // `1.a` reads as a float prefix and `1 .a` is the known printer finding: avoided
+				// `1.a` reads as a float prefix: a selector on a number needs a space before the period.
+				// (`1 .a` was printer finding C20-1, repaired by b2c2f52: it prints as `(1).a` now.)
+				x += " ." + s.ident()
+				continue
 			}
 			x += "." + s.ident()
 		case 1:
